@@ -34,6 +34,36 @@ TRACKED_HEADS = {
 
 _cache = {}
 
+# attributes that are not document state although a constructor sets them
+NOT_STATE = {
+    "_progress": "the progress logger of a Gfa (counters and timestamps of "
+                 "log messages; never read by any query)",
+}
+_extra_heads = set()
+
+
+def constructor_attributes(repo):
+    """attributes that some constructor of the library stores on its instance
+    (the classes of the logger module excepted): whatever a Gfa, a line or a
+    value object is given at construction is part of its state, so a cache
+    attribute added to a constructor is tracked without being listed"""
+    import ast
+    out = set()
+    for c in repo.classes.values():
+        if c.module.name.split(".")[-1] == "logger":
+            continue
+        init = c.methods.get("__init__")
+        if init is None:
+            continue
+        for n in ast.walk(init.node):
+            if isinstance(n, ast.Attribute) and \
+                    isinstance(n.ctx, ast.Store) and \
+                    isinstance(n.value, ast.Name) and \
+                    n.value.id == init.self_name and \
+                    n.attr.startswith("_"):
+                out.add(n.attr)
+    return out - set(NOT_STATE)
+
 
 def program(repo):
     key = id(repo)
@@ -41,6 +71,8 @@ def program(repo):
         p = Program(repo, [(f, h, k) for (f, h, k, _) in WHITELIST])
         p.run()
         _cache[key] = p
+    _extra_heads.clear()
+    _extra_heads.update(constructor_attributes(repo))
     return _cache[key]
 
 
@@ -50,4 +82,4 @@ def tracked(eff):
         return False
     if r == "glob":
         return True
-    return h in TRACKED_HEADS
+    return h in TRACKED_HEADS or h in _extra_heads
